@@ -88,7 +88,7 @@ def constructs(fn, F=None):
 
 
 def factory_map(F, fn_base, var, kinds=("new", "ctor", "call"), target_filter=None,
-                param_consts=None):
+                param_consts=None, _depth=0):
     """value -> set(targets) for constructions pinned on `var` in all bodies
     of fn_base (template instantiations merged).  With param_consts, arms
     pinned to a value that no call site can pass for the parameter `var` are
@@ -112,6 +112,26 @@ def factory_map(F, fn_base, var, kinds=("new", "ctor", "call"), target_filter=No
                 if v == var:
                     m[val].add(tgt)
                     sites[(val, tgt)] = site
+    if not m and param_consts is None and _depth < 2:
+        # the dispatch moved into a helper of the same class / file that receives the id as an argument
+        # (`return DecodeWithLevel(level, ...)` with the switch inside): read the table there
+        for fn in F.find(fn_base):
+            for n, b, rk, ev in fn.calls():
+                if n.get("virt"):
+                    continue
+                for i, a in enumerate(n.get("args") or []):
+                    x = _unwrap(a)
+                    if not (isinstance(x, dict) and x.get("k") == "var" and x.get("n") == var):
+                        continue
+                    for t in F.targets(n):
+                        same = (t.cls and fn.cls and strip_targs(t.cls) == strip_targs(fn.cls)) or \
+                               (not t.cls and t.file == fn.file) or t.is_lambda
+                        if not same or i >= len(t.params) or not t.params[i].get("n"):
+                            continue
+                        m2, s2 = factory_map(F, t.base, t.params[i]["n"], kinds, target_filter, None, _depth + 1)
+                        for val, ts in m2.items():
+                            m[val] |= ts
+                        sites.update(s2)
     return m, sites
 
 
